@@ -9,7 +9,8 @@ import (
 )
 
 const (
-	minLongSmsHeaderLength = 6 // Additional header length for long SMS
+	minLongSmsHeaderLength = 6   // Additional header length for long SMS
+	maxLongSmsParts        = 255 // total and sequence number are single octets
 
 	// Protocol header format of 6 for long SMS: 05 00 03 XX MM NN
 	longMsgHeader6ByteFrameKey   = byte(0x05)
@@ -22,6 +23,8 @@ const (
 	longMsgHeader7ByteFrameTotal = byte(0x08)
 	longMsgHeader7ByteFrameNum   = byte(0x04)
 )
+
+var errTooManyParts = fmt.Errorf("content needs more than %d parts", maxLongSmsParts)
 
 // ParseLongSmsContent parses the header of a concatenated SMS.
 // frameKey: Unique identifier for this batch of messages
@@ -84,6 +87,9 @@ func EncodeCMPPContentAndSplit(ctx context.Context, content string, msgFmt datac
 		return [][]byte{encodedData}, actualMsgFmt, nil
 	}
 
+	if ceil(len(encodedData), perMsgLength) > maxLongSmsParts {
+		return nil, 0, errTooManyParts
+	}
 	return splitWithUDHI(encodedData, perMsgLength, frameKey), actualMsgFmt, nil
 }
 
@@ -150,6 +156,9 @@ func EncodeSMPPContentAndSplit(ctx context.Context, content string, msgFmt datac
 		return [][]byte{encodedData}, actualMsgFmt, nil
 	}
 
+	if ceil(len(encodedData), perMsgLength) > maxLongSmsParts {
+		return nil, 0, errTooManyParts
+	}
 	return splitWithUDHI(encodedData, perMsgLength, frameKey), actualMsgFmt, nil
 }
 
@@ -197,6 +206,9 @@ func encodeAndSplitGSM7Packed(content string, frameKey byte) ([][]byte, datacodi
 
 	perMsgLength := datacoding.SplitBy153
 	msgCount := ceil(len(contentBytes), perMsgLength)
+	if msgCount > maxLongSmsParts {
+		return nil, 0, errTooManyParts
+	}
 	res := make([][]byte, 0, msgCount)
 
 	begin, end := 0, perMsgLength
